@@ -92,7 +92,7 @@ func (c vC08Canary) effect(env *Zlisp, res Sexp, err error) bool {
 				return true
 			case strings.Contains(e, "\""+c.touchFile+"\"") && !strings.HasPrefix(e, "os.Stat") && !strings.HasPrefix(e, "os.Open("):
 				return true
-			case strings.Contains(e, "VERIF_C08_ENV"):
+			case strings.Contains(e, "VERIF_C08_ENV") && (strings.Contains(e, "env") || strings.Contains(e, "Env")):
 				return true
 			case strings.HasPrefix(e, "os.Exit"):
 				return true
@@ -155,9 +155,37 @@ func vC08Run(env *Zlisp, label string) {
 	for i := range args {
 		args[i] = vC08Arg(env, vChoice("arg", vC08NArgs), c)
 	}
-	vSetStepBudget(300000)
+	vSetStepBudget(400000)
 	vObserve("name", name)
-	res, err, _ := vEval(env, vForm(env, name, args...))
+	form := vForm(env, name, args...)
+	s := func(n string) Sexp { return env.MakeSymbol(n) }
+	q := func(x Sexp) Sexp { return vL(s("quote"), x) }
+	// the routes by which script text can reach a name
+	var forms []Sexp
+	switch vChoice("route", 7) {
+	case 0: // directly
+		forms = []Sexp{form}
+	case 1: // through eval
+		forms = []Sexp{vL(s("eval"), q(form))}
+	case 2: // a macro whose body evaluates the form (macros expand in a duplicate interpreter)
+		forms = []Sexp{vL(s("defmac"), s("vmac"), vA(env), vL(s("eval"), q(form))), vL(s("vmac"))}
+	case 3: // a macro expanding to the form
+		forms = []Sexp{vL(s("defmac"), s("vmac2"), vA(env), q(form)), vL(s("vmac2"))}
+	case 4: // through an alias
+		forms = []Sexp{vL(s("def"), s("valias"), s(name)), vForm(env, "valias", args...)}
+	case 5: // through apply
+		forms = []Sexp{vL(s("apply"), s(name), vA(env, args...))}
+	default: // as the unevaluated operand of a builder that evaluates it in a duplicate interpreter
+		forms = []Sexp{vL(s("expectError"), &SexpStr{S: ""}, form)}
+	}
+	var res Sexp = SexpNull
+	var err error
+	for _, f := range forms {
+		res, err, _ = vEval(env, f)
+		if err != nil {
+			break
+		}
+	}
 	vAssert(!c.effect(env, res, err), label+"-no-outside-effect")
 	vReach(label)
 }
